@@ -183,6 +183,23 @@ PrivMenu(info, fuel, cu) ==
 PrivCalls(rt, cd, n) == { ExecuteCall("u1", << Exec(c, <<>>) >>) : c \in {A, B, C} }
 
 (* ====================================================================== *)
+(* percode: C08 / C11 with a custom address generator that hands out ONE address per code id:
+   a second instantiation of the same code must be rejected as a duplicate and change nothing *)
+GenesisPC ==
+    << [call |-> [k |-> "store_code", creator |-> "u1", flavour |-> 1], sc |-> <<>>],
+       [call |-> [k |-> "store_code", creator |-> "u1", flavour |-> 2], sc |-> <<>>],
+       [call |-> SudoMint("u1", Eth(3)), sc |-> <<>>],
+       [call |-> ExecuteCall("u1", << Inst(1, "L1", "u1", <<>>, "") >>), sc |-> << Beh(FALSE, << <<"k", "secret">> >>, <<>>, <<>>, NoData, <<>>) >>] >>
+PcMenu(info, fuel, cu) ==
+    {Beh(FALSE, << <<"k", "w" \o ToString(info.pos)>> >>, <<>>, <<>>, NoData, <<>>), BFail}
+    \cup (IF fuel > 1 /\ info.entry = "execute"
+          THEN {Beh(FALSE, <<>>, <<>>, <<>>, NoData, <<Sub(Inst(c, "Lp", "", <<>>, ""), 1, "", on)>>) : c \in {1, 2}, on \in {"never", "error"}}
+          ELSE {})
+PcCalls(rt, cd, n) ==
+    { ExecuteCall(u, << Inst(c, "Lp", adm, f, "") >>) : u \in {"u1", "u2"}, c \in {1, 2}, adm \in {"", "u2"}, f \in {<<>>, Eth(1)} }
+    \cup { ExecuteCall("u1", << Inst(1, "Lp", "", <<>>, "s1") >>), ExecuteCall("u1", << Exec("p1", <<>>) >>) }
+
+(* ====================================================================== *)
 (* registry: C11 - code ids and contract addresses *)
 RegCodeIds == {0, 1, 3, 5}
 RegMenu(info, fuel, cu) ==
